@@ -636,7 +636,8 @@ class MQTTBaseProtocol(Protocol):
         if response.resultCode == 0:
             self.state = self.CONNECTED
             self.mqttConnectionMade()   # before the callbacks are executed ...
-            if request.keepalive != 0:
+            # (the application may have called disconnect() from onMqttConnectionMade)
+            if request.keepalive != 0 and self.state is self.CONNECTED:
                 self._pingReq.keepalive = request.keepalive
                 self._pingReq.timer     = task.LoopingCall(self.ping)
                 self._pingReq.timer.start(request.keepalive)
@@ -752,7 +753,8 @@ class MQTTBaseProtocol(Protocol):
         Stops the periodic PINGREQ and its PINGRESP deadline
         '''
         if self._pingReq.timer:
-            self._pingReq.timer.stop()
+            if self._pingReq.timer.running:
+                self._pingReq.timer.stop()
             self._pingReq.timer = None
         for alarm in self._pingReq.alarms:
             alarm.cancel()
